@@ -335,7 +335,7 @@ REARM = {
 }
 
 
-@rule("C17", "C17-W", 5, "each non-limit expiry re-arms exactly the PDU (or timer) it guards")
+@rule("C17", "C17-W", 5, "each non-limit expiry re-arms exactly the PDU (or timer) it guards", also=("C10",))
 def c17_w(ctx):
     n = 0
     for adt, nm in TXNS:
